@@ -124,3 +124,43 @@ Definition corr_C05 (i:c05_in) (o:c05_out) : bool :=
   | Err e, Err e' => herr_eqb5 e e'
   | _, _ => false
   end.
+
+(* ================================================================== end to end: command.stamp on a database file *)
+(* history, --purge, resolved groups / dests (see Model.Stamp.stamp_revs_gen), rows in the table before; the output is
+   what a fresh connection reads after the command, or the exception class of the command *)
+Definition e2e_in := (graph * bool * list (list N) * option (list N) * list N)%type.
+Definition e2e_out := res (list N).
+Definition e2e_target (dests:option (list N)) : target := match dests with None => TBase | Some l => TIds l end.
+(* the rows the stamp starts from: --purge empties the table first, whatever it held (also ids unknown to the history) *)
+Definition e2e_start (purge:bool) (H:list N) : list N := if purge then [] else H.
+
+Definition E2E_holds (i:e2e_in) (o:e2e_out) : Prop :=
+  let '(G, purge, _, dests, H) := i in
+  pre_C05 (G, false, e2e_target dests, e2e_start purge H) = true ->
+  exists rws', o = Ok rws' /\ stamped_ok G (e2e_target dests) (e2e_start purge H) rws'.
+Definition check_e2e (i:e2e_in) (o:e2e_out) : bool :=
+  let '(G, purge, _, dests, H) := i in
+  if pre_C05 (G, false, e2e_target dests, e2e_start purge H) then
+    match o with Ok rws' => stamped_okb G (e2e_target dests) (e2e_start purge H) rws' | Err _ => false end
+  else true.
+Definition model_e2e (i:e2e_in) : e2e_out :=
+  let '(G, purge, groups, dests, H) := i in stamp_cmd G purge groups dests H.
+Definition corr_e2e (i:e2e_in) (o:e2e_out) : bool :=
+  (let '(G, _, _, _, _) := i in ndeps_okb G) &&
+  match model_e2e i, o with
+  | Ok a, Ok b => permb a b
+  | Err e, Err e' => herr_eqb5 e e'
+  | _, _ => false
+  end.
+
+(* what the engine evaluates: either kind of case *)
+Inductive c05_any := CStamp (i:c05_in) | CE2E (i:e2e_in).
+Inductive c05_anyout := OStamp (o:c05_out) | OE2E (o:e2e_out).
+Definition C05_any_holds (i:c05_any) (o:c05_anyout) : Prop :=
+  match i, o with CStamp i, OStamp o => C05_holds i o | CE2E i, OE2E o => E2E_holds i o | _, _ => False end.
+Definition check_C05_any (i:c05_any) (o:c05_anyout) : bool :=
+  match i, o with CStamp i, OStamp o => check_C05 i o | CE2E i, OE2E o => check_e2e i o | _, _ => false end.
+Definition corr_C05_any (i:c05_any) (o:c05_anyout) : bool :=
+  match i, o with CStamp i, OStamp o => corr_C05 i o | CE2E i, OE2E o => corr_e2e i o | _, _ => false end.
+Definition model_C05_any (i:c05_any) : c05_anyout :=
+  match i with CStamp i => OStamp (model_C05 i) | CE2E i => OE2E (model_e2e i) end.
